@@ -12,4 +12,7 @@ open PedVerif.Switch
 #print axioms enabled_checks
 #print axioms read_at_decoration
 #print axioms read_at_application
+#print axioms redecorate_disabled_is_identity
+#print axioms read_at_redecoration
+#print axioms first_result_unaffected_by_redecoration
 #print axioms run_refines_spec
